@@ -121,6 +121,12 @@ def absorb_kernel_helpers(F, is_kernel_candidate, max_depth=3, max_blocks=400):
                 # a candidate that is itself called from a non-candidate (an entry point) is a real kernel
                 absorbed.add(q)
                 changed = True
+            elif q in cands and not any(t['callee'] == 'std::iter::Iterator::next' for bi, t in calls_in(b)) and \
+                    any(t.get('res') in cands and t.get('res') != q for bi, t in calls_in(b, lambda t: t.get('local'))):
+                # a private dispatcher: kernel-shaped parameters, no iteration of its own, forwards to kernels;
+                # it is part of the entry points that call it
+                absorbed.add(q)
+                changed = True
     if not absorbed:
         return absorbed, {}
     new = {}
@@ -142,3 +148,112 @@ def absorb_kernel_helpers(F, is_kernel_candidate, max_depth=3, max_blocks=400):
         nb['inlined'] = sorted(absorbed & {t.get('res') for b2 in [b] for bi, t in calls_in(b2)})
         new[q] = nb
     return absorbed, new
+
+
+# ---------------------------------------------------------------------------------------------------------------------
+# lazy `filter` adaptors:  `for x in ITER.filter(|x| p(x)) { BODY }`  ==  `for x in ITER { if p(&x) { BODY } }`
+# The adaptor is rewritten into that form (the predicate closure is spliced in at the `next()` site) so that the role
+# extraction sees the filter callback where it would be in the loop form.  Nothing else about the body changes; other
+# adaptors (take_while, skip, rev, step_by, ...) are NOT rewritten -- they change which items are seen and stay visible
+# to the rules as what they are.
+def _assign(dst, rv, sp, exp=''):
+    return {'k': 'assign', 'dst': {'l': dst, 'p': []}, 'rv': rv, 'sp': sp, 'exp': exp}
+
+
+def desugar_filters(F, b, max_rounds=4):
+    """returns a rewritten copy of body b, or None when b has no `Iterator::filter(iter, closure)` with a local closure"""
+    def sites_of(body):
+        out = []
+        for bi, t in calls_in(body, lambda t: t['callee'] == 'std::iter::Iterator::filter' and len(t['args']) == 2 and t.get('gargs')):
+            C = t['args'][1]
+            if C['k'] not in ('move', 'copy') or C['pl']['p'] or t['dst']['p'] or t.get('target', -1) < 0:
+                continue
+            cty = F.types[body['locals'][C['pl']['l']]]
+            if cty['k'] == 'closure' and cty['p'] in F.bodies:
+                out.append((bi, t, cty['p']))
+        return out
+    if not sites_of(b):
+        return None
+    nb = copy.deepcopy({k: v for k, v in b.items() if k != '_facts'})
+    isize = next((i for i, ty in enumerate(F.types) if ty.get('s') == 'isize'), None)
+    if isize is None:
+        return None
+    done = []
+    for _ in range(max_rounds):
+        ss = sites_of(nb)
+        if not ss:
+            break
+        bi, t, cq = ss[0]
+        clo = F.bodies[cq]
+        A, C = t['args']
+        filt_ty = nb['locals'][t['dst']['l']]
+        inner_ty = t['gargs'][0]
+        inner = F.types[inner_ty]
+        sp, ex = t['sp'], t.get('exp', '')
+        P = len(nb['locals'])
+        nb['locals'].append(nb['locals'][C['pl']['l']])
+        blk = nb['blocks'][bi]
+        blk['stmts'] = blk['stmts'] + [_assign(t['dst']['l'], {'k': 'use', 'ops': [A]}, sp, ex), _assign(P, {'k': 'use', 'ops': [C]}, sp, ex)]
+        blk['term'] = {'k': 'goto', 'target': t['target'], 'sp': sp, 'exp': ex}
+        # the adaptor value *is* the inner iterator from here on
+        refs = {}
+        for i, ty in enumerate(nb['locals']):
+            if ty == filt_ty:
+                nb['locals'][i] = inner_ty
+            else:
+                tt = F.types[ty]
+                if tt['k'] == 'ref' and tt.get('a') == [filt_ty]:
+                    key = bool(tt.get('m'))
+                    if key not in refs:
+                        F.types.append({'k': 'ref', 'm': key, 'a': [inner_ty], 's': ('&mut ' if key else '&') + inner.get('s', '?')})
+                        refs[key] = len(F.types) - 1
+                    nb['locals'][i] = refs[key]
+        nexts = [(nbi, nt) for nbi, nt in calls_in(nb, lambda x: x['callee'] == 'std::iter::Iterator::next' and x.get('gargs') == [filt_ty])]
+        for nbi, nt in nexts:
+            R = nt['dst']['l']
+            if nt['dst']['p'] or nt.get('target', -1) < 0:
+                return None
+            T = nt['target']
+            tb = nb['blocks'][T]
+            # thread the jump through `switch discr(R)` when that is all T does
+            some_t = none_t = None
+            dl = None
+            for s in tb['stmts']:
+                if s['k'] == 'assign' and s['rv']['k'] == 'discr' and s['rv']['pl'] == {'l': R, 'p': []} and not s['dst']['p']:
+                    dl = s['dst']['l']
+            if dl is not None and tb['term']['k'] == 'switch' and tb['term']['op'].get('pl') == {'l': dl, 'p': []} and \
+                    all(s['k'] in ('live', 'dead') or (s['k'] == 'assign' and s['dst']['l'] == dl) for s in tb['stmts']):
+                tg = dict((v, x) for v, x in tb['term']['targets'])
+                some_t = tg.get(1, tb['term']['otherwise'])
+                none_t = tg.get(0, tb['term']['otherwise'])
+            nt['res'] = '<%s as std::iter::Iterator>::next' % inner.get('p', '?')
+            nt['gargs'] = [inner_ty]
+            nt['local'] = bool(inner.get('local'))
+            D = len(nb['locals'])
+            nb['locals'].append(isize)
+            tmp = len(nb['locals'])
+            nb['locals'].append(clo['locals'][2])
+            pr = len(nb['locals'])
+            nb['locals'].append(clo['locals'][1])
+            B = len(nb['locals'])
+            nb['locals'].append(clo['locals'][0])
+            n1 = len(nb['blocks'])
+            n2, n3, n_some, n_none = n1 + 1, n1 + 2, n1 + 3, n1 + 4
+            nt['target'] = n1
+            tstm = copy.deepcopy(tb['stmts']) if some_t is not None else []
+            nb['blocks'].append({'cleanup': False, 'stmts': [_assign(D, {'k': 'discr', 'pl': {'l': R, 'p': []}, 'adt': 'std::option::Option', 'variants': ['None', 'Some']}, sp, ex)],
+                                 'term': {'k': 'switch', 'op': {'k': 'move', 'pl': {'l': D, 'p': []}}, 'targets': [[1, n2]], 'otherwise': n_none, 'sp': sp, 'exp': ex}})
+            nb['blocks'].append({'cleanup': False, 'stmts': [
+                _assign(tmp, {'k': 'ref', 'mut': False, 'pl': {'l': R, 'p': ['as Some#1', '.0:0@std::option::Option']}}, sp, ex),
+                _assign(pr, {'k': 'ref', 'mut': True, 'pl': {'l': P, 'p': []}}, sp, ex)],
+                'term': {'k': 'call', 'callee': cq, 'res': cq, 'rk': 'item', 'local': True, 'selfk': 'concrete', 'gargs': [],
+                         'args': [{'k': 'move', 'pl': {'l': pr, 'p': []}}, {'k': 'move', 'pl': {'l': tmp, 'p': []}}], 'dst': {'l': B, 'p': []}, 'target': n3, 'sp': sp, 'exp': ex}})
+            nb['blocks'].append({'cleanup': False, 'stmts': [],
+                                 'term': {'k': 'switch', 'op': {'k': 'move', 'pl': {'l': B, 'p': []}}, 'targets': [[0, nbi]], 'otherwise': n_some, 'sp': sp, 'exp': ex}})
+            nb['blocks'].append({'cleanup': False, 'stmts': copy.deepcopy(tstm), 'term': {'k': 'goto', 'target': some_t if some_t is not None else T, 'sp': sp, 'exp': ex}})
+            nb['blocks'].append({'cleanup': False, 'stmts': copy.deepcopy(tstm), 'term': {'k': 'goto', 'target': none_t if none_t is not None else T, 'sp': sp, 'exp': ex}})
+            inline_call(nb, n2, clo)
+        done.append(cq)
+    nb['_facts'] = F
+    nb['desugared_filters'] = done
+    return nb
